@@ -351,21 +351,9 @@ def floatNullKeyTrigger (c : ApiCase) : Bool :=
   (c.sel.filterMap SelItem.keyCol?).any fun col =>
     colKind (c.cols.getD col []) = .float && c.metas.any fun pm => (pm.getD col ColMeta.absent).nullable
 
-/-- `agg-absent-column` (filed by C02): an aggregate input is absent from a partition and the query fails with FatalError. -/
-def aggAbsentTrigger (c : ApiCase) : Bool :=
-  (c.sel.filterMap fun
-    | .agg a => if a.fn = .count1 then none else some a.col
-    | .key _ => none).any fun col => c.metas.any fun pm =>
-      let m := pm.getD col ColMeta.absent
-      !m.present || m.enc = "Null"
-
-/-- `groupby-valrows-streamed` (filed by C02): two or more grouping columns that cannot be bit-packed (value-rows
-    fallback) in a partition longer than the batch size. -/
-def valRowsStreamed (c : ApiCase) : Bool :=
-  let keys := c.sel.filterMap SelItem.keyCol?
-  keys.length ≥ 2 && (c.bounds.zip c.metas).any fun (b, pm) =>
-    decide (b.2 - b.1 ≥ c.batchSize) &&
-      (Group.planPack ((keys.map fun k => pm.getD k ColMeta.absent).reverse.map fun m => ((effRange m).getD none, m.nullable)) 0).isNone
+/- `groupby-valrows-streamed` (filed by C02) is FIXED in /repo (3cc8efd, b5a9fe3, 5275058, 3044fa3): its classifier
+   (>= 2 grouping columns through value rows in a partition of at least batch_size rows) was removed; the witnesses run as
+   `corpus:fixed:valrows-streamed` and a recurrence is a VIOLATION. -/
 
 /-- The specification's rows with the engine's treatment of a group without non-NULL input substituted
     (COUNT → NULL, AVG → i64::MAX / i64::MAX = 1): the classifier of `count-null-group` requires that this
@@ -526,7 +514,6 @@ def stepGrp (sel wh impl bounds metaTok phys : String) (colToks : List String) :
         if spec = "OK" ∨ spec = "SKIP" then ""
         else if floatNullKeyTrigger c ∧ !absentTrigger c ∧ impl = "err:fatal" then "groupby-nullable-float-key"
         else if absentTrigger c then "groupby-absent-column"
-        else if valRowsStreamed c then "groupby-valrows-streamed"
         else if compressedKeyTrigger c ∧ (modelAgrees ∨ (model = "?" ∧
             (c.metas.length ≥ 2 ∨ (truncPatchedRows c).any (sameMultiset impl)))) then "groupby-compressed-key-type"
         else if modelAgrees ∧ run.parts.length ≥ 2 ∧ run.parts.any (fun p => !keysAscending run.univ p) then "groupby-null-key-order"
